@@ -1,9 +1,11 @@
 #!/bin/sh
-# tools/verify_seed.sh <ID> <k>: independently confirm a sub-agent's seeded change /tmp/wt/<ID>-out/patch<k>.diff
-#  (demo passes on clean tree, fails with the change, 81 pinned tests still pass), then store it under /verif/seeded/<ID>-<k>/
-ID="$1"; K="$2"; SRC=/tmp/wt/$ID-out; WT=/tmp/vs/$ID-$K; EXT=/tmp/vs/ext-$ID-$K
+# tools/verify_seed.sh <ID> <k> [<store-index>]: independently confirm a sub-agent's seeded change $SEEDSRC/<ID>-out/patch<k>.diff
+#  (demo passes on a clean tree, fails with the change, 81 pinned tests still pass), then store it under /verif/seeded/<ID>-<store-index>/
+#  env: SEEDSRC (default /tmp/wt2), SEEDBASE (commit the patch was made against; default: /repo HEAD)
+ID="$1"; K="$2"; N="${3:-$2}"; ROOT="${SEEDSRC:-/tmp/wt2}"; SRC=$ROOT/$ID-out; WT=/tmp/vs/$ID-$K; EXT=/tmp/vs/ext-$ID-$K
+BASE="${SEEDBASE:-$(git -C /repo rev-parse HEAD)}"
 mkdir -p /tmp/vs; rm -rf "$WT" "$EXT"; git -C /repo worktree prune
-git -C /repo worktree add -q "$WT" 09eeb23 || exit 2
+git -C /repo worktree add -q --detach "$WT" "$BASE" || exit 2
 run_demo() { (cd /tmp/vs && PHWT=$WT PHEXT=$EXT PYTHONPATH=/tmp/phtools/deps timeout 900 /venv/bin/python /tmp/phtools/withext.py $SRC/demo$K.py > /tmp/vs/demo-$ID-$K.$1.log 2>&1; echo $?); }
 /tmp/phtools/build_ext.sh "$WT" "$EXT" >/dev/null 2>&1
 CLEAN=$(run_demo clean)
@@ -16,7 +18,8 @@ echo "$ID-$K: demo on clean tree exit=$CLEAN, with change exit=$MUT, pinned test
 tail -3 /tmp/vs/demo-$ID-$K.mutant.log
 case "$TESTS" in *"81 passed"*) T_OK=1;; *) T_OK=0;; esac
 if [ "$CLEAN" = 0 ] && [ "$MUT" != 0 ] && [ "$MUT" != 124 ] && [ $T_OK = 1 ]; then
-  D=/verif/seeded/$ID-$K; mkdir -p $D; cp $SRC/patch$K.diff $D/patch.diff; cp $SRC/demo$K.py $D/demo.py
+  D=/verif/seeded/$ID-$N; mkdir -p $D; cp $SRC/patch$K.diff $D/patch.diff; cp $SRC/demo$K.py $D/demo.py
+  echo "$BASE" > $D/base_commit.txt
   echo "CONFIRMED -> $D"
 else
   echo "NOT CONFIRMED"
